@@ -232,6 +232,39 @@ Proof.
       destruct fn; [discriminate|]. inversion H; subst. splits; auto using ext_refl. discriminate.
     + (* SNop *)
       inversion H; subst. splits; auto using ext_refl. discriminate.
+    + (* SAdd *)
+      destruct (valid_stmt_expr TStr e); [|discriminate].
+      bind_inv H as [r σ1] H1. bind_inv H as rv Hrv. inversion H; subst.
+      destruct (IHe dflt_mode _ _ _ _ W H1) as (E1 & L1 & W1 & G1).
+      assert (E0 : ext WLG σ σ1) by (eapply ext_weaken; [|exact E1]; apply wle_wmb_lg).
+      destruct (hget (o0, h) (hdrs σ1)); [splits; auto; discriminate|].
+      destruct (render Os rv) as [|b0 l0]; [splits; auto; discriminate|].
+      destruct (set_hdrs_good (hset (o0, h) (b0 :: l0) (hdrs σ1)) σ1 W1) as (E2 & W2).
+      splits; auto; [|discriminate]. eapply ext_trans; eauto.
+    + (* SRestart *)
+      destruct (fn || allowed); [|discriminate]. inversion H; subst. splits; auto using ext_refl. discriminate.
+    + (* SError *)
+      destruct (negb fn && negb allowed); [discriminate|].
+      bind_inv H as σ1 H1. bind_inv H as σ2 H2. inversion H; subst.
+      assert (K : forall (oe : option expr) g σa σb, wf σa ->
+                match oe with
+                | None => OK σa
+                | Some e => do (r, σ') <- eval repaired Os P n dflt_mode e σa;
+                            match lookup g (globals σ') with
+                            | Some l => assign_cell Os false l AEq r σ'
+                            | None => Crash
+                            end
+                end = OK σb -> ext WLG σa σb /\ wf σb).
+      { intros [e|] g σa σb Wa Hx.
+        - bind_inv Hx as [r σm] Hm.
+          destruct (IHe dflt_mode _ _ _ _ Wa Hm) as (E1 & L1 & W1 & G1).
+          destruct (lookup g (globals σm)) as [l|] eqn:El; [|discriminate].
+          destruct (assign_cell_good Os WLG false l AEq r σm σb W1) as (E2 & W2 & _); auto.
+          { right. exists g. exact El. }
+          split; auto. eapply ext_trans; [|exact E2]. eapply ext_weaken; [|exact E1]. apply wle_wmb_lg.
+        - inversion Hx; subst. auto using ext_refl. }
+      destruct (K _ _ _ _ W H1) as (E1 & W1). destruct (K _ _ _ _ W1 H2) as (E2 & W2).
+      splits; auto; [|discriminate]. eapply ext_trans; eauto.
     + (* SSwitch *)
       bind_inv H as [lc σ1] H1. bind_inv H as vc Hvc.
       bind_inv H as [r σ3] H3. bind_inv H as [o4 σ4] H4. inversion H; subst.
